@@ -1,10 +1,12 @@
 import OptiModel.Model.Merid
 import OptiModel.Proofs.NumReal
+import OptiModel.Proofs.ConicRefract
 import Mathlib.Tactic.FieldSimp
 import Mathlib.Tactic.Ring
 import Mathlib.Tactic.LinearCombination
 import Mathlib.Tactic.Positivity
 import Mathlib.Tactic.Linarith
+import OptiModel.Proofs.ConicMirrors
 /-!
 # C06  Analytically stigmatic systems are imaged perfectly
 Closed-form theorems about the model's *own* `distance`, `surface_normal`, alignment and
@@ -131,5 +133,625 @@ theorem sphere_centre (R M N n1 n2 : ℝ) (hR : 0 < R) (hN : N < 0) (hu : M^2 + 
 
 /-! ### non-vacuity -/
 example : (0:ℝ) < 50 ∧ (-(4:ℝ)/5) < 0 ∧ ((3:ℝ)/5)^2 + (-(4:ℝ)/5)^2 = 1 := by norm_num
+
+
+/-! ## Conic mirrors between their geometric foci
+
+Surface frame: vertex at the origin, conic `(1+k) z² − 2 R z + y² = 0` (the sag sheet is the part with
+`R − (1+k) z` of the sign of `R`).  With `e = √(−k)` the foci are `F₁ = (0, R/(1+e))` (next to the vertex)
+and `F₂ = (0, R/(1−e))`.  The helper file `Proofs/ConicMirrors.lean` works with a signed eccentricity `ε`
+(`ε² = −k`), which covers both foci at once.
+-/
+
+open ConicMirrors in
+/-- **which root `StandardGeometry.distance` picks for a ray leaving a focus** (`R > 0`, `ε² = −k`,
+`ε > −1`: both foci of an ellipsoid, the focus `R/(1+e)` of a hyperboloid; ray heading for the vertex
+side, `N < 0`): always the root `t₁ = (−b+√d)/(2a) = R/(1−εN)`; the other root `−R/(1+εN)` is negative
+(masked) when `|εN| < 1`, `a = 0` and the linear branch gives the same value when `εN = −1`, and for
+`εN < −1` (hyperboloid, near-axial rays) both roots are positive and the `|z|` comparison keeps `t₁`.
+At `N ≥ 0` the real code masks/compares with `inf`, which ℝ cannot express (junk value 0); excluded. -/
+theorem focus_ray_distance (k R ε M N : ℝ) (hR : 0 < R) (hk : k = -ε^2) (hε : -1 < ε) (hN : N < 0)
+    (hu : M^2 + N^2 = 1) :
+    mdist k R ⟨0, R / (1 + ε), M, N⟩ = R / (1 - ε * N) :=
+  mdist_focus k R ε M N hR hk hε hN hu
+
+open ConicMirrors in
+/-- **the normal of `StandardGeometry.surface_normal` at a point of the sag sheet is the normalised
+gradient** of the implicit equation `(1+k) z² − 2 R z + y² = 0`, i.e. of `(y, −(R − (1+k) z))`. -/
+theorem sag_sheet_normal_is_gradient (k R y z : ℝ) (hR : 0 < R) (hc : (1 + k) * z^2 - 2 * R * z + y^2 = 0)
+    (hD : 0 < R - (1 + k) * z) :
+    mnormal k R y = (y / Real.sqrt (y^2 + (R - (1 + k) * z)^2),
+                     -(R - (1 + k) * z) / Real.sqrt (y^2 + (R - (1 + k) * z)^2)) :=
+  mnormal_on_conic k R y z hR hc hD
+
+/-- `mreflect` does not depend on the orientation of the normal it is given (the alignment by
+`np.sign` and the `|k·n|` cancel): it is the plain mirror formula. -/
+theorem reflect_is_mirror_formula (M N ny nz : ℝ) :
+    mreflect M N ny nz = (M - 2 * (M*ny + N*nz) * ny, N - 2 * (M*ny + N*nz) * nz) :=
+  ConicMirrors.mreflect_eq M N ny nz
+
+theorem sqrt_ecc (k : ℝ) (hk0 : k < 0) :
+    0 < Real.sqrt (-k) ∧ Real.sqrt (-k) ^ 2 = -k ∧ k = -(Real.sqrt (-k))^2 := by
+  have h0 : 0 < -k := by linarith
+  have h2 : Real.sqrt (-k) ^ 2 = -k := Real.sq_sqrt h0.le
+  exact ⟨Real.sqrt_pos.mpr h0, h2, by linarith⟩
+
+open ConicMirrors in
+/-- **ellipsoid_mirror** (`−1 < k < 0`, `R > 0`), object at the focus next to the vertex `F₁ = R/(1+e)`,
+every unit direction heading for the vertex side (`N < 0`): the model's `mstepMirror` (root selection of
+`distance`, `surface_normal`, alignment, `reflect`) hits the conic at distance `t = R/(1−eN)`, the
+reflected ray passes through the other focus `F₂ = R/(1−e)` at the positive parameter `s`, the reflected
+direction is a unit vector, and the path `t + s = 2R/(1+k) = 2a` does not depend on the direction. -/
+theorem ellipsoid_mirror_stigmatic (k R M N : ℝ) (hk1 : -1 < k) (hk0 : k < 0) (hR : 0 < R) (hN : N < 0)
+    (hu : M^2 + N^2 = 1) :
+    let e := Real.sqrt (-k)
+    let out := mstepMirror k R ⟨0, R / (1 + e), M, N⟩
+    let s := R * (1 - 2 * e * N + e^2) / ((1 - e * N) * (1 - e^2))
+    out.2 = R / (1 - e * N) ∧ 0 < out.2 ∧
+    (1 + k) * out.1.z^2 - 2 * R * out.1.z + out.1.y^2 = 0 ∧
+    out.1.y + s * out.1.M = 0 ∧ out.1.z + s * out.1.N = R / (1 - e) ∧ 0 < s ∧
+    out.1.M^2 + out.1.N^2 = 1 ∧ out.2 + s = 2 * R / (1 + k) := by
+  intro e out s
+  obtain ⟨he0, he2, hke⟩ := sqrt_ecc k hk0
+  have he1 : e < 1 := by
+    by_contra h
+    have : 1 ≤ e := not_lt.mp h
+    nlinarith
+  have hp : 0 < 1 - e * N := by nlinarith
+  have ht := mdist_focus k R e M N hR hke (by linarith) hN hu
+  obtain ⟨h1, h2, h3, h4, h5, h6⟩ :=
+    focus_mirror_facts k R e M N hR hke (by linarith) (by linarith) hp (by linarith) hu ht
+  have hs : 0 < s := by
+    have : 0 < 1 - 2 * e * N + e^2 := by nlinarith
+    have : 0 < 1 - e^2 := by nlinarith
+    positivity
+  refine ⟨h1, ?_, h2, h3, h4, hs, h5, h6⟩
+  rw [h1]; positivity
+
+open ConicMirrors in
+/-- **ellipsoid_mirror, reversed** (`−1 < k < 0`, `R > 0`), object at the far focus `F₂ = R/(1−e)`, unit
+directions with `N < −e`: exactly the rays that meet the sag sheet `z < R/(1+k)` (strictly before the
+equator; at `N = −e` the ray meets the equator, where `surface_normal` divides by zero, and for
+`−e < N < 0` the hit point lies on the far half of the ellipsoid, whose normal the sag formula does not
+give).  The reflected ray passes through `F₁ = R/(1+e)`, same constant path `2R/(1+k)`. -/
+theorem ellipsoid_mirror_stigmatic_rev (k R M N : ℝ) (hk1 : -1 < k) (hk0 : k < 0) (hR : 0 < R)
+    (hN : N < -Real.sqrt (-k)) (hu : M^2 + N^2 = 1) :
+    let e := Real.sqrt (-k)
+    let out := mstepMirror k R ⟨0, R / (1 - e), M, N⟩
+    let s := R * (1 + 2 * e * N + e^2) / ((1 + e * N) * (1 - e^2))
+    out.2 = R / (1 + e * N) ∧ 0 < out.2 ∧
+    (1 + k) * out.1.z^2 - 2 * R * out.1.z + out.1.y^2 = 0 ∧
+    out.1.y + s * out.1.M = 0 ∧ out.1.z + s * out.1.N = R / (1 + e) ∧ 0 < s ∧
+    out.1.M^2 + out.1.N^2 = 1 ∧ out.2 + s = 2 * R / (1 + k) := by
+  intro e out s
+  obtain ⟨he0, he2, hke⟩ := sqrt_ecc k hk0
+  have he1 : e < 1 := by
+    by_contra h
+    have : 1 ≤ e := not_lt.mp h
+    nlinarith
+  have hN0 : N < 0 := by linarith
+  have hN1 : -1 ≤ N := by nlinarith [sq_nonneg M]
+  have hp : 0 < 1 + e * N := by nlinarith
+  have hke' : k = -(-e)^2 := by rw [neg_sq]; exact hke
+  have e1 : 1 + -e = 1 - e := by ring
+  have e2 : 1 - -e * N = 1 + e * N := by ring
+  have e3 : 1 - 2 * -e * N + e^2 = 1 + 2 * e * N + e^2 := by ring
+  have e4 : 1 - -e = 1 + e := by ring
+  have ht := mdist_focus k R (-e) M N hR hke' (by linarith) hN0 hu
+  have hf := focus_mirror_facts k R (-e) M N hR hke' (by rw [e1]; linarith) (by rw [e4]; linarith)
+    (by rw [e2]; exact hp) hN hu ht
+  simp only [e1, e2, e4, neg_sq] at hf
+  simp only [e3] at hf
+  obtain ⟨h1, h2, h3, h4, h5, h6⟩ := hf
+  have hs : 0 < s := by
+    have : 0 < 1 + 2 * e * N + e^2 := by nlinarith [sq_nonneg (e + N), sq_nonneg M]
+    have : 0 < 1 - e^2 := by nlinarith
+    positivity
+  refine ⟨h1, ?_, h2, h3, h4, hs, h5, h6⟩
+  rw [h1]; positivity
+
+open ConicMirrors in
+/-- **hyperboloid_mirror** (`k < −1`, `R > 0`), object at the real focus `F₁ = R/(1+e)` inside the sheet,
+every unit direction with `N < 0`: `mstepMirror` hits the conic at `t = R/(1−eN)` (root selection:
+see `focus_ray_distance`, three branches), and the *line* of the reflected ray passes through the
+other (virtual) focus `F₂ = R/(1−e) < 0` at the negative parameter `s`; the reflected direction is a
+unit vector and the path difference `t + s = t − |s| = 2R/(1+k)` does not depend on the direction. -/
+theorem hyperboloid_mirror_stigmatic (k R M N : ℝ) (hk1 : k < -1) (hR : 0 < R) (hN : N < 0)
+    (hu : M^2 + N^2 = 1) :
+    let e := Real.sqrt (-k)
+    let out := mstepMirror k R ⟨0, R / (1 + e), M, N⟩
+    let s := R * (1 - 2 * e * N + e^2) / ((1 - e * N) * (1 - e^2))
+    out.2 = R / (1 - e * N) ∧ 0 < out.2 ∧
+    (1 + k) * out.1.z^2 - 2 * R * out.1.z + out.1.y^2 = 0 ∧
+    out.1.y + s * out.1.M = 0 ∧ out.1.z + s * out.1.N = R / (1 - e) ∧ s < 0 ∧
+    out.1.M^2 + out.1.N^2 = 1 ∧ out.2 + s = 2 * R / (1 + k) := by
+  intro e out s
+  obtain ⟨he0, he2, hke⟩ := sqrt_ecc k (by linarith)
+  have he1 : 1 < e := by
+    by_contra h
+    have : e ≤ 1 := not_lt.mp h
+    nlinarith
+  have hp : 0 < 1 - e * N := by nlinarith
+  have ht := mdist_focus k R e M N hR hke (by linarith) hN hu
+  obtain ⟨h1, h2, h3, h4, h5, h6⟩ :=
+    focus_mirror_facts k R e M N hR hke (by linarith) (by linarith) hp (by linarith) hu ht
+  have hs : s < 0 := by
+    have hq : 0 < 1 - 2 * e * N + e^2 := by nlinarith
+    have hw : 0 < e^2 - 1 := by nlinarith
+    have : s = -(R * (1 - 2 * e * N + e^2) / ((1 - e * N) * (e^2 - 1))) := by
+      simp only [s]
+      rw [← neg_div_neg_eq, neg_div]; congr 2; ring
+    rw [this]
+    have : 0 < R * (1 - 2 * e * N + e^2) / ((1 - e * N) * (e^2 - 1)) := by positivity
+    linarith
+  refine ⟨h1, ?_, h2, h3, h4, hs, h5, h6⟩
+  rw [h1]; positivity
+
+/-! ### the same for `R < 0`: the layout of the test lenses (`harness/c06.py`: object in front of the
+mirror, rays travelling in +z, vertex at the origin, foci at negative z) -/
+
+open ConicMirrors in
+/-- **ellipsoid_mirror, `R < 0`**, object at `F₁ = R/(1+e)`, every unit direction with `N > 0`. -/
+theorem ellipsoid_mirror_stigmatic_neg (k R M N : ℝ) (hk1 : -1 < k) (hk0 : k < 0) (hR : R < 0) (hN : 0 < N)
+    (hu : M^2 + N^2 = 1) :
+    let e := Real.sqrt (-k)
+    let out := mstepMirror k R ⟨0, R / (1 + e), M, N⟩
+    let s := -R * (1 + 2 * e * N + e^2) / ((1 + e * N) * (1 - e^2))
+    out.2 = -R / (1 + e * N) ∧ 0 < out.2 ∧
+    (1 + k) * out.1.z^2 - 2 * R * out.1.z + out.1.y^2 = 0 ∧
+    out.1.y + s * out.1.M = 0 ∧ out.1.z + s * out.1.N = R / (1 - e) ∧ 0 < s ∧
+    out.1.M^2 + out.1.N^2 = 1 ∧ out.2 + s = -(2 * R) / (1 + k) := by
+  intro e out s
+  obtain ⟨he0, he2, hke⟩ := sqrt_ecc k hk0
+  have he1 : e < 1 := by
+    by_contra h
+    have : 1 ≤ e := not_lt.mp h
+    nlinarith
+  have hp : 0 < 1 + e * N := by nlinarith
+  have hR' : 0 < -R := by linarith
+  have ht := mdist_focus_neg k R e M N hR hke (by linarith) hN hu
+  obtain ⟨h1, h2, h3, h4, h5, h6⟩ :=
+    focus_mirror_facts_neg k R e M N hR hke (by linarith) (by linarith) hp (by linarith) hu ht
+  have hs : 0 < s := by
+    have : 0 < 1 + 2 * e * N + e^2 := by nlinarith
+    have : 0 < 1 - e^2 := by nlinarith
+    positivity
+  refine ⟨h1, ?_, h2, h3, h4, hs, h5, h6⟩
+  rw [h1]; positivity
+
+open ConicMirrors in
+/-- **ellipsoid_mirror, `R < 0`, reversed**: object at the far focus `F₂ = R/(1−e)`, unit directions
+with `N > e` (the rays that meet the sag sheet before the equator; the harness keeps the footprint
+below `0.7 b`). -/
+theorem ellipsoid_mirror_stigmatic_rev_neg (k R M N : ℝ) (hk1 : -1 < k) (hk0 : k < 0) (hR : R < 0)
+    (hN : Real.sqrt (-k) < N) (hu : M^2 + N^2 = 1) :
+    let e := Real.sqrt (-k)
+    let out := mstepMirror k R ⟨0, R / (1 - e), M, N⟩
+    let s := -R * (1 - 2 * e * N + e^2) / ((1 - e * N) * (1 - e^2))
+    out.2 = -R / (1 - e * N) ∧ 0 < out.2 ∧
+    (1 + k) * out.1.z^2 - 2 * R * out.1.z + out.1.y^2 = 0 ∧
+    out.1.y + s * out.1.M = 0 ∧ out.1.z + s * out.1.N = R / (1 + e) ∧ 0 < s ∧
+    out.1.M^2 + out.1.N^2 = 1 ∧ out.2 + s = -(2 * R) / (1 + k) := by
+  intro e out s
+  obtain ⟨he0, he2, hke⟩ := sqrt_ecc k hk0
+  have he1 : e < 1 := by
+    by_contra h
+    have : 1 ≤ e := not_lt.mp h
+    nlinarith
+  have hN0 : 0 < N := by linarith
+  have hN1 : N ≤ 1 := by nlinarith [sq_nonneg M]
+  have hp : 0 < 1 - e * N := by nlinarith
+  have hR' : 0 < -R := by linarith
+  have hke' : k = -(-e)^2 := by rw [neg_sq]; exact hke
+  have e1 : 1 + -e = 1 - e := by ring
+  have e2 : 1 + -e * N = 1 - e * N := by ring
+  have e3 : 1 + 2 * -e * N + e^2 = 1 - 2 * e * N + e^2 := by ring
+  have e4 : 1 - -e = 1 + e := by ring
+  have ht := mdist_focus_neg k R (-e) M N hR hke' (by linarith) hN0 hu
+  have hf := focus_mirror_facts_neg k R (-e) M N hR hke' (by rw [e1]; linarith) (by rw [e4]; linarith)
+    (by rw [e2]; exact hp) (by rw [neg_neg]; exact hN) hu ht
+  simp only [e1, e2, e4, neg_sq] at hf
+  simp only [e3] at hf
+  obtain ⟨h1, h2, h3, h4, h5, h6⟩ := hf
+  have hs : 0 < s := by
+    have : 0 < 1 - 2 * e * N + e^2 := by nlinarith [sq_nonneg (e - N), sq_nonneg M]
+    have : 0 < 1 - e^2 := by nlinarith
+    positivity
+  refine ⟨h1, ?_, h2, h3, h4, hs, h5, h6⟩
+  rw [h1]; positivity
+
+open ConicMirrors in
+/-- **hyperboloid_mirror, `R < 0`**: object at the real focus `F₁ = R/(1+e)`, `N > 0`; the reflected line
+passes through the virtual focus `F₂ = R/(1−e) > 0` at a negative parameter. -/
+theorem hyperboloid_mirror_stigmatic_neg (k R M N : ℝ) (hk1 : k < -1) (hR : R < 0) (hN : 0 < N)
+    (hu : M^2 + N^2 = 1) :
+    let e := Real.sqrt (-k)
+    let out := mstepMirror k R ⟨0, R / (1 + e), M, N⟩
+    let s := -R * (1 + 2 * e * N + e^2) / ((1 + e * N) * (1 - e^2))
+    out.2 = -R / (1 + e * N) ∧ 0 < out.2 ∧
+    (1 + k) * out.1.z^2 - 2 * R * out.1.z + out.1.y^2 = 0 ∧
+    out.1.y + s * out.1.M = 0 ∧ out.1.z + s * out.1.N = R / (1 - e) ∧ s < 0 ∧
+    out.1.M^2 + out.1.N^2 = 1 ∧ out.2 + s = -(2 * R) / (1 + k) := by
+  intro e out s
+  obtain ⟨he0, he2, hke⟩ := sqrt_ecc k (by linarith)
+  have he1 : 1 < e := by
+    by_contra h
+    have : e ≤ 1 := not_lt.mp h
+    nlinarith
+  have hp : 0 < 1 + e * N := by nlinarith
+  have hR' : 0 < -R := by linarith
+  have ht := mdist_focus_neg k R e M N hR hke (by linarith) hN hu
+  obtain ⟨h1, h2, h3, h4, h5, h6⟩ :=
+    focus_mirror_facts_neg k R e M N hR hke (by linarith) (by linarith) hp (by linarith) hu ht
+  have hs : s < 0 := by
+    have hq : 0 < 1 + 2 * e * N + e^2 := by nlinarith
+    have hw : 0 < e^2 - 1 := by nlinarith
+    have : s = -(-R * (1 + 2 * e * N + e^2) / ((1 + e * N) * (e^2 - 1))) := by
+      simp only [s]
+      rw [← neg_div_neg_eq, neg_div]; congr 2; ring
+    rw [this]
+    have : 0 < -R * (1 + 2 * e * N + e^2) / ((1 + e * N) * (e^2 - 1)) := by positivity
+    linarith
+  refine ⟨h1, ?_, h2, h3, h4, hs, h5, h6⟩
+  rw [h1]; positivity
+
+/-! ### the hyperboloid as a Cassegrain secondary: rays *aimed at* the real focus from the convex side -/
+
+open ConicMirrors in
+/-- **hyperboloid_secondary** (`k < −1`, `R > 0`): a ray started at `F₁ − u (M,N)` (`F₁ = R/(1+e)`, i.e.
+converging on the focus inside the sheet, `N > 0`, `u` = distance from the start point to `F₁`) hits the
+convex side at `t = u − R/(1+eN)` — the *second* root of `distance`; which branch of the root selection
+decides depends on `eN ⋚ 1`, see `ConicMirrors.mdist_aimed` —, and the reflected ray passes through the
+other focus `F₂ = R/(1−e)` at the positive parameter `s` (a real image); `t + s = u − 2R/(1+k)`: for rays
+started on a wavefront converging on `F₁` (same `u`) the path to `F₂` does not depend on the direction.
+Guard `hfar`: the start point is further from the vertex plane than the hit point, `z₀ < −z_hit` (over ℝ the
+masked root `inf` is the junk value 0, so the `|z|` comparison is against `|z₀|`; the real code needs only
+`t ≥ 0`). -/
+theorem hyperboloid_secondary_stigmatic (k R M N u : ℝ) (hk1 : k < -1) (hR : 0 < R) (hN : 0 < N)
+    (hu : M^2 + N^2 = 1)
+    (hfar : R / (1 + Real.sqrt (-k)) - u * N
+        < -(R * (1 - N) / ((1 + Real.sqrt (-k)) * (1 + Real.sqrt (-k) * N)))) :
+    let e := Real.sqrt (-k)
+    let out := mstepMirror k R ⟨-(u * M), R / (1 + e) - u * N, M, N⟩
+    let s := R * (1 + 2 * e * N + e^2) / ((1 + e * N) * (e^2 - 1))
+    out.2 = u - R / (1 + e * N) ∧
+    (1 + k) * out.1.z^2 - 2 * R * out.1.z + out.1.y^2 = 0 ∧
+    out.1.y + s * out.1.M = 0 ∧ out.1.z + s * out.1.N = R / (1 - e) ∧ 0 < s ∧
+    out.1.M^2 + out.1.N^2 = 1 ∧ out.2 + s = u - 2 * R / (1 + k) := by
+  intro e out s
+  obtain ⟨he0, he2, hke⟩ := sqrt_ecc k (by linarith)
+  have he1 : 1 < e := by
+    by_contra h
+    have : e ≤ 1 := not_lt.mp h
+    nlinarith
+  obtain ⟨h1, h2, h3, h4, h5, h6⟩ := aimed_mirror_facts k R e M N u hR hke he1 hN hu hfar
+  have hs : 0 < s := by
+    have : 0 < 1 + 2 * e * N + e^2 := by nlinarith
+    have : 0 < e^2 - 1 := by nlinarith
+    have : 0 < 1 + e * N := by nlinarith
+    positivity
+  exact ⟨h1, h2, h3, h4, hs, h5, h6⟩
+
+open ConicMirrors in
+/-- **hyperboloid_secondary, `R < 0`, `N < 0`**: the layout of the Cassegrain test lens (rays return from
+the primary in the −z direction towards the prime focus `R/(1+e)` behind the secondary, the image is at
+`R/(1−e) > 0`). -/
+theorem hyperboloid_secondary_stigmatic_neg (k R M N u : ℝ) (hk1 : k < -1) (hR : R < 0) (hN : N < 0)
+    (hu : M^2 + N^2 = 1)
+    (hfar : -(R * (1 + N) / ((1 + Real.sqrt (-k)) * (1 - Real.sqrt (-k) * N)))
+        < R / (1 + Real.sqrt (-k)) - u * N) :
+    let e := Real.sqrt (-k)
+    let out := mstepMirror k R ⟨-(u * M), R / (1 + e) - u * N, M, N⟩
+    let s := -R * (1 - 2 * e * N + e^2) / ((1 - e * N) * (e^2 - 1))
+    out.2 = u + R / (1 - e * N) ∧
+    (1 + k) * out.1.z^2 - 2 * R * out.1.z + out.1.y^2 = 0 ∧
+    out.1.y + s * out.1.M = 0 ∧ out.1.z + s * out.1.N = R / (1 - e) ∧ 0 < s ∧
+    out.1.M^2 + out.1.N^2 = 1 ∧ out.2 + s = u + 2 * R / (1 + k) := by
+  intro e out s
+  obtain ⟨he0, he2, hke⟩ := sqrt_ecc k (by linarith)
+  have he1 : 1 < e := by
+    by_contra h
+    have : e ≤ 1 := not_lt.mp h
+    nlinarith
+  obtain ⟨h1, h2, h3, h4, h5, h6⟩ := aimed_mirror_facts_neg k R e M N u hR hke he1 hN hu hfar
+  have hs : 0 < s := by
+    have : 0 < 1 - 2 * e * N + e^2 := by nlinarith
+    have : 0 < e^2 - 1 := by nlinarith
+    have : 0 < 1 - e * N := by nlinarith
+    have : 0 < -R := by linarith
+    positivity
+  exact ⟨h1, h2, h3, h4, hs, h5, h6⟩
+
+/-! ### focal property of the conic -/
+
+/-- focus–directrix form: for every point of the conic `(1+k) z² − 2 R z + y² = 0`, `k = −ε²`, the
+squared distance to the focus `(0, R/(1+ε))` is `(R/(1+ε) + ε z)²`, i.e. `ε ×` the distance to the
+directrix `z = −R/(ε(1+ε))`. -/
+theorem conic_focus_directrix (k R ε y z : ℝ) (hk : k = -ε^2) (hε : 1 + ε ≠ 0)
+    (hc : (1 + k) * z^2 - 2 * R * z + y^2 = 0) :
+    y^2 + (z - R / (1 + ε))^2 = (R / (1 + ε) + ε * z)^2 := by
+  subst hk
+  have hε'' : ε + 1 ≠ 0 := by rw [add_comm]; exact hε
+  have key : y^2 + (z - R / (1 + ε))^2 - (R / (1 + ε) + ε * z)^2 = (1 + -ε^2) * z^2 - 2 * R * z + y^2 := by
+    field_simp; ring
+  linarith
+
+open ConicMirrors in
+/-- the distance returned by `mdist` for the ray leaving the focus is that focal distance:
+`t = R/(1+ε) + ε z_hit` (linear in the sag of the hit point). -/
+theorem focus_ray_distance_linear (k R ε M N : ℝ) (hR : 0 < R) (hk : k = -ε^2) (hε : -1 < ε) (hN : N < 0)
+    (hu : M^2 + N^2 = 1) :
+    let t := mdist k R ⟨0, R / (1 + ε), M, N⟩
+    t = R / (1 + ε) + ε * (R / (1 + ε) + t * N) := by
+  intro t
+  have ht : t = R / (1 - ε * N) := mdist_focus k R ε M N hR hk hε hN hu
+  have hN1 : -1 ≤ N := by nlinarith [sq_nonneg M]
+  have hp : 0 < 1 - ε * N := by nlinarith
+  obtain ⟨p, hpd⟩ : ∃ p, p = 1 - ε * N := ⟨_, rfl⟩
+  have hp' : p ≠ 0 := by rw [hpd]; exact ne_of_gt hp
+  have hε' : ε + 1 ≠ 0 := by linarith
+  have hε'' : 1 + ε ≠ 0 := by linarith
+  rw [ht, ← hpd]
+  field_simp
+  subst hpd
+  ring
+
+/-! ### non-vacuity (conic mirrors): k = −1/4 (e = 1/2), k = −4 (e = 2), R = ±10, direction (3/5, ∓4/5) -/
+example : (-1:ℝ) < -1/4 ∧ (-1/4:ℝ) < 0 ∧ (0:ℝ) < 10 ∧ (-(4:ℝ)/5) < 0 ∧ ((3:ℝ)/5)^2 + (-(4:ℝ)/5)^2 = 1 := by
+  norm_num
+example : (-(4:ℝ)/5) < -Real.sqrt (-(-1/4)) := by
+  have : Real.sqrt (-(-1/4 : ℝ)) = 1/2 := by
+    rw [show (-(-1/4) : ℝ) = (1/2)^2 by norm_num, Real.sqrt_sq (by norm_num)]
+  rw [this]; norm_num
+example : (-4:ℝ) < -1 ∧ (0:ℝ) < 10 ∧ (-(4:ℝ)/5) < 0 ∧ ((3:ℝ)/5)^2 + (-(4:ℝ)/5)^2 = 1 := by norm_num
+example : (-1:ℝ) < -1/4 ∧ (-1/4:ℝ) < 0 ∧ (-10:ℝ) < 0 ∧ (0:ℝ) < 4/5 ∧ ((3:ℝ)/5)^2 + ((4:ℝ)/5)^2 = 1 := by
+  norm_num
+example : Real.sqrt (-(-1/4)) < (4:ℝ)/5 := by
+  have : Real.sqrt (-(-1/4 : ℝ)) = 1/2 := by
+    rw [show (-(-1/4) : ℝ) = (1/2)^2 by norm_num, Real.sqrt_sq (by norm_num)]
+  rw [this]; norm_num
+example : (-4:ℝ) < -1 ∧ (-10:ℝ) < 0 ∧ (0:ℝ) < 4/5 ∧ ((3:ℝ)/5)^2 + ((4:ℝ)/5)^2 = 1 := by norm_num
+/-- secondary: k = −4 (e = 2), R = 10, direction (3/5, 4/5), started u = 10 before the focus -/
+example : (10:ℝ) / (1 + Real.sqrt (-(-4))) - 10 * (4/5)
+    < -(10 * (1 - 4/5) / ((1 + Real.sqrt (-(-4))) * (1 + Real.sqrt (-(-4)) * (4/5)))) := by
+  have : Real.sqrt (-(-4 : ℝ)) = 2 := by
+    rw [show (-(-4) : ℝ) = 2^2 by norm_num, Real.sqrt_sq (by norm_num)]
+  rw [this]; norm_num
+example : -((-10:ℝ) * (1 + -(4/5)) / ((1 + Real.sqrt (-(-4))) * (1 - Real.sqrt (-(-4)) * -(4/5))))
+    < (-10:ℝ) / (1 + Real.sqrt (-(-4))) - 10 * -(4/5) := by
+  have : Real.sqrt (-(-4 : ℝ)) = 2 := by
+    rw [show (-(-4) : ℝ) = 2^2 by norm_num, Real.sqrt_sq (by norm_num)]
+  rw [this]; norm_num
+/-- a point of the sag sheet of the conic k = −1/4 (ε = 1/2), R = 10: (y, z) = (4√7, 8), R − (1+k) z = 4
+(hypotheses of `sag_sheet_normal_is_gradient`, `conic_focus_directrix`) -/
+example : (0:ℝ) < 10 ∧ (1 + (-1/4 : ℝ)) * 8^2 - 2 * 10 * 8 + (4 * Real.sqrt 7)^2 = 0 ∧
+    (0:ℝ) < 10 - (1 + (-1/4)) * 8 ∧ (-1/4 : ℝ) = -(1/2)^2 ∧ (1:ℝ) + 1/2 ≠ 0 := by
+  have : Real.sqrt 7 ^ 2 = 7 := Real.sq_sqrt (by norm_num)
+  refine ⟨by norm_num, by nlinarith, by norm_num, by norm_num, by norm_num⟩
+/-- `focus_ray_distance` with the signed eccentricity: ε = ±1/2 (k = −1/4), ε = 2 (k = −4) -/
+example : (-1/4 : ℝ) = -(-(1/2))^2 ∧ (-1 : ℝ) < -(1/2) ∧ (-4 : ℝ) = -(2)^2 ∧ (-1 : ℝ) < 2 := by norm_num
+
+/-! ## refracting configurations
+Helper lemmas: `Proofs/ConicRefract.lean` (namespace `ConicRefract`). -/
+
+/-- **plano-hyperbolic singlet, back surface** (`k = −n²`, `R < 0`, glass of index `n > 1` → air, the
+lay-out of `cfg_plano_hyperbolic` in `harness/c06.py`): collimated light `⟨h, z₀, 0, 1⟩` inside the glass.
+`a = (1+k)N² + M² = 1 − n² ≠ 0`, so `selectRoot` is in its quadratic branch; the discriminant is
+`4(R² + (n²−1)h²) > 0` for **every** height `h` (the hyperboloid has no aperture limit), both roots are
+non-negative under the guard and the root with the smaller `|z|` is `t₁ = (−b+√d)/(2a)`, the sag sheet.
+The refracted ray passes through the far focus of the hyperbola `(0, f)`, `f = −R/(n−1) = |R|/(n−1)`, at
+the (positive) distance `s = (n√(R²+(n²−1)h²) − R)/(n²−1)` along the unit refracted direction, and the
+optical path `n·t + 1·s = f − n z₀` does not depend on `h`.
+
+Guard `hg` (with `z₀ ≤ 0`): the start plane is not beyond the hit point, `z₀ ≤ sag(h)` written without a
+square root (`c ≤ 0` for the quadratic coefficient `c`).  For a lens this is "edge thickness ≥ 0".  When it
+is violated the implementation masks the negative root `t₁` to `inf` and returns `t₂`, the intersection
+with the *other* sheet of the hyperboloid (`z > 0`), where `surface_normal` evaluates the normal of the sag
+sheet at the same height: the ray is still refracted, to a wrong direction, without any NaN. -/
+theorem hyperbolic_surface_stigmatic (n R h z0 : ℝ) (hn : 1 < n) (hR : R < 0) (hz0 : z0 ≤ 0)
+    (hg : h^2 ≤ (n^2 - 1) * z0^2 + 2 * R * z0) :
+    let out := mstep (α := ℝ) (-n^2) R n 1 ⟨h, z0, 0, 1⟩
+    let f := -R / (n - 1)
+    let s := (n * Real.sqrt (R^2 + (n^2 - 1) * h^2) - R) / (n^2 - 1)
+    out.1.y + s * out.1.M = 0 ∧ out.1.z + s * out.1.N = f ∧
+    out.1.M^2 + out.1.N^2 = 1 ∧ n * out.2 + 1 * s = f - n * z0 ∧ 0 < s ∧ 0 ≤ out.2 := by
+  simp only [mstep]
+  rw [ConicRefract.mdist_hyperbola n R h z0 hn hR hz0 hg]
+  simp only [mul_zero, add_zero]
+  rw [ConicRefract.mnormal_hyperbola n R h hn hR]
+  simp only []
+  rw [ConicRefract.mrefract_hyperbola n R h hn hR]
+  simp only []
+  have hn2 : 0 < n^2 - 1 := by nlinarith
+  have hq : 0 < R^2 + (n^2 - 1) * h^2 := by
+    have := mul_nonneg hn2.le (sq_nonneg h)
+    nlinarith [sq_pos_of_neg hR]
+  have hnn := ConicRefract.hyperbola_dist_nonneg n R h z0 hn hR hz0 hg
+  obtain ⟨a1, a2, a3, a4, a5⟩ := ConicRefract.hyperbola_algebra n R h z0 (Real.sqrt (R^2 + (n^2 - 1) * h^2)) hn hR
+    (Real.sqrt_pos.mpr hq) (Real.sq_sqrt hq.le)
+  exact ⟨a1, a2, a3, a4, a5, hnn⟩
+
+/-- **plano-hyperbolic singlet, whole lens**: plane front surface (air → glass, `mstepPlane`), thickness
+`T`, hyperbolic back surface `k = −n²`, `R < 0` (glass → air).  Collimated light starting at `z = zs ≤ 0` in
+front of the plane surface: every ray meets the axis at distance `f = −R/(n−1)` behind the back vertex and
+the optical path `1·t₀ + n·t₁ + 1·s = −zs + nT + f` is the same for all heights `h` with non-negative edge
+thickness (`hg`: `T ≥ |sag(h)|`, square-root free). -/
+theorem plano_hyperbolic_singlet (n R h zs T : ℝ) (hn : 1 < n) (hR : R < 0) (hzs : zs ≤ 0) (hT : 0 ≤ T)
+    (hg : h^2 ≤ (n^2 - 1) * T^2 - 2 * R * T) :
+    let p := mstepPlane (α := ℝ) 1 n ⟨h, zs, 0, 1⟩
+    let out := mstep (α := ℝ) (-n^2) R n 1 ⟨p.1.y, p.1.z - T, p.1.M, p.1.N⟩
+    let f := -R / (n - 1)
+    let s := (n * Real.sqrt (R^2 + (n^2 - 1) * h^2) - R) / (n^2 - 1)
+    out.1.y + s * out.1.M = 0 ∧ out.1.z + s * out.1.N = f ∧ out.1.M^2 + out.1.N^2 = 1 ∧
+    1 * p.2 + n * out.2 + 1 * s = -zs + n * T + f := by
+  intro p out f s
+  have hp : p = (⟨h, 0, 0, 1⟩, -zs) := ConicRefract.mstepPlane_collimated 1 n h zs hzs
+  have hout : out = mstep (α := ℝ) (-n^2) R n 1 ⟨h, 0 - T, 0, 1⟩ := by simp only [out, hp]
+  obtain ⟨k1, k2, k3, k4, _, _⟩ :=
+    hyperbolic_surface_stigmatic n R h (0 - T) hn hR (by linarith) (by nlinarith)
+  rw [hout, hp]
+  refine ⟨k1, k2, k3, ?_⟩
+  simp only [f, s] at k4 ⊢
+  linarith
+
+/-- **hyperbolic surface, mirrored use** (`k = −n²`, `R > 0`, air → glass of index `n > 1`): a point source
+in air at the far focus `(0, −f)`, `f = R/(n−1)`, in front of the convex hyperboloid.  Every ray `(M, N)`
+with `n N² > 1` is refracted to the axial direction `(0, 1)` (collimated inside the glass), it meets the
+surface at `t = R/(nN − 1)`, and `1·t + n·(z_ref − z_hit) = f + n z_ref` for every reference plane: the
+optical path to any plane wavefront is the same for all rays.
+
+Here `a = (1+k)N² + M² = 1 − n²N² < 0`, discriminant `4R²`, both roots positive:
+`t₁ = R/(1+nN)` is the intersection with the *other* sheet of the hyperboloid (`z₁ < 0`),
+`t₂ = R/(nN−1)` with the sag sheet (`z₂ ≥ 0`); `|z₂| < |z₁| ⇔ n N² > 1`.
+Guard `hap : 1 < n N²`: rays with `1/n < N ≤ 1/√n` do meet the sag sheet (the asymptote is at `N = 1/n`),
+but `selectRoot` then returns the phantom intersection with the other sheet (smaller `|z|`) and the ray is
+refracted there with the normal of the sag sheet — no NaN, wrong ray. -/
+theorem hyperbolic_surface_collimating (n R M N : ℝ) (hn : 1 < n) (hR : 0 < R) (hN : 0 < N)
+    (hu : M^2 + N^2 = 1) (hap : 1 < n * N^2) :
+    let f := R / (n - 1)
+    let out := mstep (α := ℝ) (-n^2) R 1 n ⟨0, -f, M, N⟩
+    out.1.M = 0 ∧ out.1.N = 1 ∧ out.2 = R / (n * N - 1) ∧ 0 < out.2 ∧ 0 ≤ out.1.z ∧
+    ∀ zr : ℝ, 1 * out.2 + n * (zr - out.1.z) = f + n * zr := by
+  have hN1 : N ≤ 1 := by nlinarith [sq_nonneg M, sq_nonneg (N - 1)]
+  have hnN : 1 < n * N := by
+    nlinarith [mul_nonneg (mul_nonneg (by linarith : (0:ℝ) ≤ n) hN.le) (by linarith : 0 ≤ 1 - N)]
+  have hn1 : n - 1 ≠ 0 := by intro h0; linarith
+  have hnN1 : n * N - 1 ≠ 0 := by intro h0; linarith
+  simp only [mstep]
+  rw [ConicRefract.mdist_hyperbola_focus n R M N hn hR hN hu hap,
+    ConicRefract.mnormal_hyperbola_focus n R M N hn hR hN hu hap]
+  simp only []
+  rw [ConicRefract.mrefract_hyperbola_focus n M N hn hN hu hap]
+  simp only []
+  have ez : -(R / (n - 1)) + R / (n * N - 1) * N = R * (1 - N) / ((n - 1) * (n * N - 1)) := by
+    field_simp; ring
+  refine ⟨trivial, trivial, trivial, div_pos hR (by linarith), ?_, ?_⟩
+  · rw [ez]
+    exact div_nonneg (mul_nonneg hR.le (by linarith)) (mul_nonneg (by linarith) (by linarith))
+  · intro zr
+    rw [ez]
+    field_simp
+    ring
+
+/-- **aplanatic points of a refracting sphere** (`k = 0`, any `R ≠ 0`, indices `n1 → n2`): object point on
+the axis at `z_o = R + R·n2/n1` (distance `R n2/n1` from the centre of curvature), image point at
+`z_i = R + R·n1/n2`.  The ray travels in `+z` (`N > 0`), is aimed at the object point (it is there at the
+parameter `s`; `s = 0`: it starts there) and starts before both intersections with the sphere (`hs1`, `hs2`,
+square-root free: `s − N q ≥ 0` and the start point is outside the sphere; otherwise the implementation
+masks a negative root).  For `R > 0` this is a *virtual* object (rays converging towards a point behind the
+surface, `s > 0`); for `R < 0` and `n2 ≥ n1` it is the real object of `cfg_aplanatic` in `harness/c06.py`
+(`s = 0`).  `mdist` selects the intersection on the vertex side for both signs of `R`.
+
+Aperture guard `hap : M² n2² < N² n1²` i.e. `|tan U| < n1/n2`: the hit point lies on the vertex-side
+hemisphere `(R − z)/R > 0` (the sag sheet).  Between this bound and the grazing ray (`|sin U| < n1/n2`) the
+ray still meets the sphere, beyond its equator, where `surface_normal` returns the normal of the mirror
+point of the sag sheet: the implementation then refracts with a wrong normal (no NaN).
+
+Conclusions: with `σ = −(n1/n2)(t − s)` (`t − s` = signed path object → surface) the refracted line passes
+through the image point at the signed parameter `σ`; the refracted direction is a unit vector with
+`sin U' = (n2/n1) sin U` for **every** ray (sine condition: constant ratio); `N' > 0`; and
+`n1 (t − s) + n2 σ = 0`: the optical path object → image is the same (zero) for all rays. -/
+theorem sphere_aplanatic (R n1 n2 M N s : ℝ) (hR : R ≠ 0) (h1 : 0 < n1) (h2 : 0 < n2) (hN : 0 < N)
+    (hu : M^2 + N^2 = 1) (hap : M^2 * n2^2 < N^2 * n1^2)
+    (hs1 : 0 ≤ s - N * (R * n2 / n1))
+    (hs2 : R^2 - M^2 * (R * n2 / n1)^2 ≤ (s - N * (R * n2 / n1))^2) :
+    let zo := R + R * n2 / n1
+    let zi := R + R * n1 / n2
+    let out := mstep (α := ℝ) 0 R n1 n2 ⟨-s * M, zo - s * N, M, N⟩
+    let σ := -(n1 / n2) * (out.2 - s)
+    out.1.y + σ * out.1.M = 0 ∧ out.1.z + σ * out.1.N = zi ∧ out.1.M^2 + out.1.N^2 = 1 ∧
+    out.1.M = n2 / n1 * M ∧ 0 < out.1.N ∧ n1 * (out.2 - s) + n2 * σ = 0 ∧ 0 ≤ out.2 := by
+  have hn1 : n1 ≠ 0 := ne_of_gt h1
+  have hn2 : n2 ≠ 0 := ne_of_gt h2
+  have hpos : 0 < R^2 - M^2 * (R * n2 / n1)^2 := by
+    have e : R^2 - M^2 * (R * n2 / n1)^2 = (R / n1)^2 * (n1^2 - M^2 * n2^2) := by field_simp
+    have e1 : n1^2 = M^2 * n1^2 + N^2 * n1^2 := by linear_combination (-(n1^2)) * hu
+    have h3 : 0 < n1^2 - M^2 * n2^2 := by nlinarith [mul_nonneg (sq_nonneg M) (sq_nonneg n1)]
+    rw [e]; exact mul_pos (by positivity) h3
+  obtain ⟨w, hw2, hwR⟩ : ∃ w : ℝ, w^2 = R^2 - M^2 * (R * n2 / n1)^2 ∧ 0 < w * R := by
+    rcases lt_or_gt_of_ne hR with h | h
+    · refine ⟨-Real.sqrt (R^2 - M^2 * (R * n2 / n1)^2), by rw [neg_sq, Real.sq_sqrt hpos.le], ?_⟩
+      nlinarith [Real.sqrt_pos.mpr hpos]
+    · exact ⟨Real.sqrt (R^2 - M^2 * (R * n2 / n1)^2), Real.sq_sqrt hpos.le,
+        mul_pos (Real.sqrt_pos.mpr hpos) h⟩
+  have hd := ConicRefract.mdist_sphere_aimed R (R * n2 / n1) M N s w hN hu hw2 hwR hs1 hs2
+  obtain ⟨hsph, hhem⟩ := ConicRefract.aplanatic_geometry R n1 n2 M N w
+    (-s * M + (s - N * (R * n2 / n1) - w) * M)
+    (R + R * n2 / n1 - s * N + (s - N * (R * n2 / n1) - w) * N) h1 h2 hN hu hw2 hwR hap (by ring) (by ring)
+  have hrf := ConicRefract.aplanatic_refract R n1 n2 M N w
+    (-s * M + (s - N * (R * n2 / n1) - w) * M)
+    (R + R * n2 / n1 - s * N + (s - N * (R * n2 / n1) - w) * N) h1 h2 hN hu hw2 hwR (by ring) (by ring)
+  simp only [mstep]
+  rw [hd, ConicRefract.mnormal_sphere R _ _ hsph hhem]
+  simp only []
+  rw [hrf]
+  simp only []
+  have hw2' : w^2 * n1^2 = R^2 * n1^2 - M^2 * R^2 * n2^2 := by rw [hw2]; field_simp
+  have ha0 : 0 < w / R := by
+    have : w / R = w * R / R^2 := by field_simp
+    rw [this]; exact div_pos hwR (by positivity)
+  refine ⟨?_, ?_, ?_, trivial, ha0, ?_, ?_⟩
+  · field_simp; ring
+  · field_simp
+    linear_combination hw2' - (R^2 * n2^2) * hu
+  · field_simp
+    linear_combination hw2'
+  · field_simp; ring
+  · have hwB : |w| ≤ s - N * (R * n2 / n1) := abs_le_of_sq_le_sq (by rw [hw2]; exact hs2) hs1
+    have := le_abs_self w
+    linarith
+
+/-- **sphere at its centre of curvature, optical paths** (corollary of `sphere_centre`): for every direction
+`(M, N)` from the centre the distance to the surface is `R`; the mirror returns the ray to the centre after
+the same distance (`n1 t + n1 R = 2 n1 R`, the same for all rays); the refracting surface leaves the direction
+unchanged, so the image is the centre itself at the signed parameter `−R` and `n1 t + n2 (−R) = (n1 − n2) R`
+is the same for all rays. -/
+theorem sphere_centre_opl (R M N n1 n2 : ℝ) (hR : 0 < R) (hN : N < 0) (hu : M^2 + N^2 = 1) (hn2 : n2 ≠ 0) :
+    let r : MRay ℝ := ⟨0, R, M, N⟩
+    let om := mstepMirror (α := ℝ) 0 R r
+    let ot := mstep (α := ℝ) 0 R n1 n2 r
+    (om.2 = R ∧ om.1.y + R * om.1.M = 0 ∧ om.1.z + R * om.1.N = R ∧ n1 * om.2 + n1 * R = 2 * n1 * R) ∧
+    (ot.2 = R ∧ ot.1.M = M ∧ ot.1.N = N ∧ ot.1.y + (-R) * ot.1.M = 0 ∧ ot.1.z + (-R) * ot.1.N = R ∧
+      n1 * ot.2 + n2 * (-R) = (n1 - n2) * R) := by
+  have h := sphere_centre R M N n1 n2 hR hN hu hn2
+  dsimp only at h
+  obtain ⟨hd, hnrm, hrf, hrl⟩ := h
+  simp only [mstepMirror, mstep]
+  rw [hd, hnrm]
+  simp only []
+  rw [hrf, hrl]
+  simp only []
+  refine ⟨⟨trivial, ?_, ?_, ?_⟩, trivial, trivial, trivial, ?_, ?_, ?_⟩ <;> ring
+
+/-! ### non-vacuity (refracting configurations) -/
+/-- `hyperbolic_surface_stigmatic`: n = 3/2, R = −50, h = 10, z₀ = −10 -/
+example : (1:ℝ) < 3/2 ∧ (-50:ℝ) < 0 ∧ (-10:ℝ) ≤ 0 ∧
+    (10:ℝ)^2 ≤ ((3/2:ℝ)^2 - 1) * (-10)^2 + 2 * (-50) * (-10) := by norm_num
+example := hyperbolic_surface_stigmatic (3/2) (-50) 10 (-10) (by norm_num) (by norm_num) (by norm_num)
+  (by norm_num)
+/-- `plano_hyperbolic_singlet`: n = 3/2, R = −50, h = 10, zs = −5, T = 10 -/
+example : (1:ℝ) < 3/2 ∧ (-50:ℝ) < 0 ∧ (-5:ℝ) ≤ 0 ∧ (0:ℝ) ≤ 10 ∧
+    (10:ℝ)^2 ≤ ((3/2:ℝ)^2 - 1) * 10^2 - 2 * (-50) * 10 := by norm_num
+example := plano_hyperbolic_singlet (3/2) (-50) 10 (-5) 10 (by norm_num) (by norm_num) (by norm_num)
+  (by norm_num) (by norm_num)
+/-- `hyperbolic_surface_collimating`: n = 3/2, R = 50, (M, N) = (5/13, 12/13) -/
+example : (1:ℝ) < 3/2 ∧ (0:ℝ) < 50 ∧ (0:ℝ) < 12/13 ∧ ((5:ℝ)/13)^2 + ((12:ℝ)/13)^2 = 1 ∧
+    (1:ℝ) < 3/2 * (12/13)^2 := by norm_num
+example := hyperbolic_surface_collimating (3/2) 50 (5/13) (12/13) (by norm_num) (by norm_num) (by norm_num)
+  (by norm_num) (by norm_num)
+/-- `sphere_aplanatic`, virtual object: R = 50, n1 = 1, n2 = 3/2, (M, N) = (5/13, 12/13), s = 200 -/
+example : (50:ℝ) ≠ 0 ∧ (0:ℝ) < 1 ∧ (0:ℝ) < 3/2 ∧ (0:ℝ) < 12/13 ∧ ((5:ℝ)/13)^2 + ((12:ℝ)/13)^2 = 1 ∧
+    ((5:ℝ)/13)^2 * (3/2)^2 < ((12:ℝ)/13)^2 * 1^2 ∧ (0:ℝ) ≤ 200 - 12/13 * (50 * (3/2) / 1) ∧
+    (50:ℝ)^2 - (5/13)^2 * (50 * (3/2) / 1)^2 ≤ (200 - 12/13 * (50 * (3/2) / 1))^2 := by norm_num
+example := sphere_aplanatic 50 1 (3/2) (5/13) (12/13) 200 (by norm_num) (by norm_num) (by norm_num)
+  (by norm_num) (by norm_num) (by norm_num) (by norm_num) (by norm_num)
+/-- `sphere_aplanatic`, the harness lay-out (real object): R = −50, n1 = 1, n2 = 3/2, s = 0 -/
+example : (-50:ℝ) ≠ 0 ∧ ((5:ℝ)/13)^2 * (3/2)^2 < ((12:ℝ)/13)^2 * 1^2 ∧
+    (0:ℝ) ≤ 0 - 12/13 * (-50 * (3/2) / 1) ∧
+    (-50:ℝ)^2 - (5/13)^2 * (-50 * (3/2) / 1)^2 ≤ (0 - 12/13 * (-50 * (3/2) / 1))^2 := by norm_num
+example := sphere_aplanatic (-50) 1 (3/2) (5/13) (12/13) 0 (by norm_num) (by norm_num) (by norm_num)
+  (by norm_num) (by norm_num) (by norm_num) (by norm_num) (by norm_num)
+/-- `sphere_centre_opl`: R = 50, (M, N) = (3/5, −4/5), n2 = 3/2 -/
+example := sphere_centre_opl 50 (3/5) (-4/5) 1 (3/2) (by norm_num) (by norm_num) (by norm_num) (by norm_num)
 
 end C06
